@@ -914,6 +914,10 @@ class Interp(object):
                 v = concrete(v)
                 if isinstance(v, dict):
                     v = ADict(v)
+                if isinstance(v, Unk) and (isinstance(fn, Builtin) and fn.name == 'dict' or fn is dict) and '**unknown' not in kwargs:
+                    # dict(a, **m) with an unknown mapping m: a copy of a in which m may override any key
+                    kwargs['**unknown'] = v
+                    continue
                 if not isinstance(v, ADict):
                     raise AnalysisError('**%r at %s' % (v, norm(e)[:60]))
                 self.emit('splat', e, {'mapping': v, 'callee': fn})
